@@ -123,5 +123,4 @@ def run(tier):
 
 
 def replay(rp):
-    print(json.dumps(rp, indent=1)[:3000])
-    return 0
+    return T.replay(rp)
